@@ -317,7 +317,7 @@ class RDSystem :
         
         """
 
-        self._state = np.zeros(self.space.size()*self.network.nspecies())
+        self.state = np.zeros(self.space.size()*self.network.nspecies())
 
     def reset_chemostats(self) :
         """
